@@ -10,7 +10,7 @@ tie:    T3 differential run of the extracted model against snoopy_filter_only_ui
 import json, os
 from vlib.core import hexs, unhex, corr_stream, VERIF, CheckError
 from vlib.tr_filter import tr_filter
-from vlib.filt import AREA, UIDS, build_impl, uid_list, malformed_list, near_misses
+from vlib.filt import AREA, UIDS, build_impl, uid_list, malformed_list, near_misses, shrink_list, FAST_ASAN
 
 EUIDS = [0, 7, 1000, 65534, 2 ** 32 - 2]
 
@@ -84,10 +84,35 @@ def spec_line(cf, rf):
     return None
 
 
-def classify(run, res, cases, stream):
+def fails(run, exe, case):
+    r = corr_stream(run, AREA, exe, [case], spec_line=spec_line, stream="shrink", impl_env=FAST_ASAN)
+    return bool(r["spec_bad"] or r["faults"])
+
+
+def minimise(run, exe, case):
+    """fewest list entries (and shortest numerals) on which the implementation still breaks the specification"""
+    f = case.split("\t")
+    if f[0] != "uidf" or exe is None:
+        return case
+    items = (unhex(f[4]) or b"").split(b",")
+    mk = lambda its: "\t".join(f[:4] + [hexs(b",".join(its))])
+    items = shrink_list(items, lambda its: fails(run, exe, mk(its)))
+    stripped = [it.lstrip(b"0") or b"0" for it in items]
+    if stripped != items and fails(run, exe, mk(stripped)):
+        items = stripped
+    return mk(items)
+
+
+def classify(run, res, cases, stream, exe=None):
     nv = 0
+    shrunk = set()
     for (i, c, impl, sp) in res["spec_bad"]:
         f = c.split("\t")
+        sig = "spec:%s-membership" % f[1]
+        if sig not in shrunk and len(shrunk) < 4:
+            shrunk.add(sig)
+            c = minimise(run, exe, c)
+            f = c.split("\t")
         arg = unhex(f[4]) or b""
         run.violation("spec:%s-membership" % f[1], "spec_violation",
                       "%s under real uid %s (effective %s) answered %s for the list %r: not the membership of the real uid"
@@ -95,7 +120,11 @@ def classify(run, res, cases, stream):
                       {"stream": stream, "failing_input": c, "impl_output": impl, "model_output": res["model"][i], "cases": [c]})
         nv += 1
     for (i, c, impl) in res["faults"]:
-        run.violation("fault:%s" % impl.split("\t")[0], "sanitizer", "implementation faulted: %s" % impl,
+        sig = "fault:%s" % impl.split("\t")[0]
+        if sig not in shrunk and len(shrunk) < 4:
+            shrunk.add(sig)
+            c = minimise(run, exe, c)
+        run.violation(sig, "sanitizer", "implementation faulted (%s) on %s" % (impl, "\t".join(c.split("\t")[:4]) + "\t" + repr((unhex(c.split("\t")[-1]) or b"")[:80])),
                       {"stream": stream, "failing_input": c, "impl_output": impl, "model_output": res["model"][i], "cases": [c]})
         nv += 1
     # a chain holding both list filters with the same list drops for every uid
@@ -146,9 +175,16 @@ def check(run):
     exe = build_impl(run)
     corp = corpus_cases()
     cases, meta = gen_cases(run.rng, run.tier)
-    allcases = corp + cases
-    res = corr_stream(run, AREA, exe, allcases, spec_line=spec_line, stream="uid")
-    nv, npairs = classify(run, res, allcases, "uid")
+    # a smoke stage first: when the implementation faults on a large share of it the full stream is pointless (and slow)
+    smoke = corp + cases[:: max(1, len(cases) // 300)]
+    res = corr_stream(run, AREA, exe, smoke, spec_line=spec_line, stream="smoke", impl_env=FAST_ASAN)
+    if len(res["faults"]) > 20:
+        allcases = smoke
+        run.notes.append("the implementation faulted on %d of %d smoke cases; the full stream was skipped" % (len(res["faults"]), len(smoke)))
+    else:
+        allcases = corp + cases
+        res = corr_stream(run, AREA, exe, allcases, spec_line=spec_line, stream="uid", impl_env=FAST_ASAN)
+    nv, npairs = classify(run, res, allcases, "uid", exe)
     if not ok and nv == 0:
         run.violation("proof:%s" % failed, "proof", "proof obligation no longer checks: %s\n%s" % (failed, log[-1500:]), {"theorem": failed, "coq_log": log[-3000:]})
     if res["mismatch"] and nv == 0:
@@ -187,7 +223,7 @@ def replay(run, path):
         print("proof-only violation (%s): re-run ./check C14 quick" % rep.get("theorem"))
         run.cleanup()
         return 1
-    res = corr_stream(run, AREA, exe, cases, spec_line=spec_line, stream="replay")
+    res = corr_stream(run, AREA, exe, cases, spec_line=spec_line, stream="replay", impl_env=FAST_ASAN)
     for i, c in enumerate(cases):
         f = c.split("\t")
         print("case:", "\t".join(f[:4]), (unhex(f[4]) or b"")[:200] if len(f) > 4 and f[0] != "csv" else "")
